@@ -470,6 +470,20 @@ def falsify(ctx):
         opts = [o for o in OPTS if rng.random() < 0.2]
         cases.append((gen_schema(rng), kind, opts))
     seen = 0
+    # --reuse-model: a model that inherits from the second of two identical definitions (the stand-in must be bound before it)
+    same = {"type": "object", "properties": {"street": {"type": "string"}}}
+    for user in ({"allOf": [{"$ref": "#/definitions/Location"}], "type": "object", "properties": {"floor": {"type": "integer"}}},
+                 {"type": "object", "properties": {"at": {"$ref": "#/definitions/Location"}, "also": {"type": "array", "items": {"$ref": "#/definitions/Address"}}}}):
+        for order in (["Address", "Location", "Office"], ["Office", "Location", "Address"], ["Location", "Office", "Address"]):
+            parts = {"Address": same, "Location": json.loads(json.dumps(same)), "Office": user}
+            sch = {"title": "M", "type": "object", "properties": {"o": {"$ref": "#/definitions/Office"}, "a": {"$ref": "#/definitions/Address"}},
+                   "definitions": {k: parts[k] for k in order}}
+            for kind in ("pydantic_v2.BaseModel", "pydantic.BaseModel", "dataclasses.dataclass"):
+                cases.append((sch, kind, ["reuse_model"]))
+    # a map with a constrained key type (patternProperties) in every container spelling
+    ppsch = {"title": "M", "type": "object", "definitions": {}, "properties": {"pp": {"type": "object", "patternProperties": {"^x-": {"type": "integer"}}}, "n": {"type": "integer"}}}
+    for o in ([], ["use_standard_collections"], ["use_standard_collections", "use_union_operator"], ["use_generic_container_types"], ["use_standard_collections", "use_generic_container_types"]):
+        cases.append((ppsch, "pydantic_v2.BaseModel", o))
     for sdl in SDLS:
         for kind in e2e.KINDS:
             ctx.count("eval_e2e")
